@@ -149,3 +149,200 @@ Proof.
       rewrite app_length, skipn_length. lia.
 Qed.
 End ReadBuffer.
+
+(* ------------------------------------------------------------ arithmetic *)
+Lemma read_put_uint24 v tail : v <= max_uint24 -> read_uint24 (put_uint24 v ++ tail) = Some v.
+Proof.
+  unfold max_uint24, read_uint24, put_uint24. intros H. cbn [app]. f_equal. lia.
+Qed.
+
+Lemma be_bytes_small x : x <> 0 -> x < 256 -> be_bytes x = [x].
+Proof.
+  intros H0 H. rewrite be_bytes_step by exact H0.
+  replace (x / 256) with 0 by (symmetry; apply N.div_small; exact H).
+  rewrite be_bytes_0. cbn. f_equal. apply N.mod_small. exact H.
+Qed.
+
+Lemma int_size_len code : code < 2 ^ 64 -> int_size code = lenN (enc_uint code).
+Proof.
+  intros Hc. unfold int_size, enc_uint.
+  destruct (N.ltb_spec code 128) as [Hs|Hs].
+  - destruct (N.eq_dec code 0) as [->|Hn]; [reflexivity|].
+    rewrite be_bytes_small by lia. unfold enc_str.
+    destruct (N.ltb_spec code 128); [reflexivity|lia].
+  - pose proof (be_bytes_len_64 code Hc) as H8.
+    assert (Hpos : 1 <= lenN (be_bytes code)) by (apply be_bytes_len_pos; lia).
+    destruct (be_bytes code) as [|x [|y l]] eqn:E.
+    + unfold lenN in Hpos. cbn in Hpos. lia.
+    + assert (x = code).
+      { pose proof (be_bytes_decode code) as D. rewrite E, be_decode_single in D. exact D. }
+      subst x. unfold enc_str. destruct (N.ltb_spec code 128); [lia|]. reflexivity.
+    + unfold enc_str, enc_head.
+      destruct (N.ltb_spec (lenN (x :: y :: l)) 56) as [_|H56]; [|lia].
+      rewrite lenN_app. unfold lenN at 2. cbn [length]. lia.
+Qed.
+
+Lemma pad16_spec f : (f + pad16 f) mod 16 = 0 /\ pad16 f < 16.
+Proof.
+  unfold pad16. destruct (N.eqb_spec (f mod 16) 0) as [E|E]; split; try lia.
+Qed.
+
+(* ================================================================= *)
+Section FramingProofs.
+Variable cst : Type.
+Variable cnext : cst -> N * cst.
+Variable hst : Type.
+Variable hwrite : hst -> list N -> hst.
+Variable hsum : hst -> list N.
+Variable blk : list N -> list N.
+Variable snappy_enc : list N -> list N.
+Variable snappy_declen : list N -> option N.
+Variable snappy_dec : list N -> option (list N).
+Variable newcap : nat -> nat -> nat.
+
+Local Notation xor_ks := (xor_ks cst cnext).
+Local Notation compute_header := (compute_header hst hwrite hsum blk).
+Local Notation compute_frame := (compute_frame hst hwrite hsum blk).
+Local Notation write_frame := (write_frame cst cnext hst hwrite hsum blk).
+Local Notation conn_write := (conn_write cst cnext hst hwrite hsum blk snappy_enc).
+Local Notation write_msgs := (write_msgs cst cnext hst hwrite hsum blk snappy_enc).
+Local Notation read_frame := (read_frame cst cnext hst hwrite hsum blk newcap).
+Local Notation conn_read := (conn_read cst cnext hst hwrite hsum blk snappy_declen snappy_dec newcap).
+Local Notation read_until := (read_until cst cnext hst hwrite hsum blk snappy_declen snappy_dec newcap).
+Local Notation read_frame_s := (read_frame_s cst cnext hst hwrite hsum blk).
+Local Notation conn_read_s := (conn_read_s cst cnext hst hwrite hsum blk snappy_declen snappy_dec).
+Local Notation read_until_s := (read_until_s cst cnext hst hwrite hsum blk snappy_declen snappy_dec).
+Local Notation mkw := (mkw cst hst).
+Local Notation mkr := (mkr cst hst).
+Local Notation mks := (mks cst hst).
+
+(* the MAC tag functions of a given hash state *)
+Definition header_tag (m : hst) (hc : list N) : list N := snd (compute_header m hc).
+Definition frame_tag (m : hst) (fc : list N) : list N := snd (compute_frame m fc).
+
+(* ---- the stream cipher: XOR with the same keystream twice is the identity ---- *)
+Lemma xor_ks_length d : forall c, length (fst (xor_ks c d)) = length d.
+Proof.
+  induction d as [|b d IH]; intros c; cbn [Rlpx.xor_ks]; [reflexivity|].
+  destruct (cnext c) as [k c1]. specialize (IH c1).
+  destruct (xor_ks c1 d) as [out c2]. cbn in *. congruence.
+Qed.
+
+Lemma xor_involutive d : forall c, xor_ks c (fst (xor_ks c d)) = (d, snd (xor_ks c d)).
+Proof.
+  induction d as [|b d IH]; intros c; cbn [Rlpx.xor_ks]; [reflexivity|].
+  destruct (cnext c) as [k c1] eqn:Ec. specialize (IH c1).
+  destruct (xor_ks c1 d) as [out c2] eqn:Ed. cbn [fst snd] in *.
+  cbn [Rlpx.xor_ks]. rewrite Ec, IH.
+  rewrite N.lxor_assoc, N.lxor_nilpotent, N.lxor_0_r. reflexivity.
+Qed.
+
+(* ---- the chunked reader computes the stream reader ---- *)
+Hypothesis newcap_ge : forall c n, (c + n <= newcap c n)%nat.
+
+Lemma rb_read_take b fr n : rb_wf b ->
+  match rb_read newcap b fr n, take_s n (rb_rem b fr) with
+  | Good (out, b', fr'), Some (out2, rest) => out = out2 /\ rb_wf b' /\ rb_rem b' fr' = rest
+  | Bad e, None => norm_err e = EConnEOF
+  | _, _ => False
+  end.
+Proof.
+  intros W. pose proof (rb_read_spec newcap newcap_ge b fr n W) as S. unfold take_s.
+  destruct (rb_read newcap b fr n) as [[[out b'] fr']|e].
+  - destruct S as (H1 & H2 & H3 & H4).
+    destruct (Nat.leb_spec n (length (rb_rem b fr))); [auto|lia].
+  - destruct S as (H1 & H2).
+    destruct (Nat.leb_spec n (length (rb_rem b fr))); [lia|].
+    destruct H2 as [-> | ->]; reflexivity.
+Qed.
+
+Definition sim_frame (x : rres (list N * rstate cst hst * conn))
+                     (y : rres (list N * sstate cst hst * list N)) : Prop :=
+  match x, y with
+  | Good (f, r', fr'), Good (f2, s', rest) =>
+      f = f2 /\ s' = mks (r_dec _ _ r') (r_mac _ _ r') /\
+      rb_wf (r_buf _ _ r') /\ rb_rem (r_buf _ _ r') fr' = rest
+  | Bad e, Bad e2 => norm_err e = e2
+  | _, _ => False
+  end.
+
+Lemma read_frame_stream r fr : rb_wf (r_buf _ _ r) ->
+  sim_frame (read_frame r fr)
+            (read_frame_s (mks (r_dec _ _ r) (r_mac _ _ r)) (rb_rem (r_buf _ _ r) fr)).
+Proof.
+  intros W. unfold Rlpx.read_frame, Rlpx.read_frame_s. cbn [s_dec s_mac].
+  pose proof (rb_read_take (rb_reset (r_buf _ _ r)) fr 32 (rb_reset_wf _ W)) as T1.
+  rewrite rb_reset_rem in T1.
+  destruct (rb_read newcap (rb_reset (r_buf _ _ r)) fr 32) as [[[header b1] fr1]|e];
+    destruct (take_s 32 (rb_rem (r_buf _ _ r) fr)) as [[h2 s1]|]; try contradiction;
+    [|exact T1].
+  destruct T1 as (-> & W1 & R1).
+  destruct (compute_header (r_mac _ _ r) (firstn 16 h2)) as [m1 want].
+  destruct (negb (bytes_eqb want (skipn 16 h2))); [reflexivity|].
+  destruct (xor_ks (r_dec _ _ r) (firstn 16 h2)) as [hp c1].
+  destruct (read_uint24 hp) as [fsize|]; [|reflexivity].
+  pose proof (rb_read_take b1 fr1 (N.to_nat (fsize + pad16 fsize)) W1) as T2. rewrite R1 in T2.
+  destruct (rb_read newcap b1 fr1 (N.to_nat (fsize + pad16 fsize))) as [[[fc b2] fr2]|e];
+    destruct (take_s (N.to_nat (fsize + pad16 fsize)) s1) as [[fc2 s2]|]; try contradiction;
+    [|exact T2].
+  destruct T2 as (-> & W2 & R2).
+  pose proof (rb_read_take b2 fr2 16 W2) as T3. rewrite R2 in T3.
+  destruct (rb_read newcap b2 fr2 16) as [[[fm b3] fr3]|e];
+    destruct (take_s 16 s2) as [[fm2 s3]|]; try contradiction; [|exact T3].
+  destruct T3 as (-> & W3 & R3).
+  destruct (compute_frame m1 fc2) as [m2 wantf].
+  destruct (negb (bytes_eqb wantf fm2)); [reflexivity|].
+  destruct (xor_ks c1 fc2) as [fp c2]. cbn. auto.
+Qed.
+
+Definition sim_msg (x : rres (msg * rstate cst hst * conn))
+                   (y : rres (msg * sstate cst hst * list N)) : Prop :=
+  match x, y with
+  | Good (m, r', fr'), Good (m2, s', rest) =>
+      m = m2 /\ s' = mks (r_dec _ _ r') (r_mac _ _ r') /\
+      rb_wf (r_buf _ _ r') /\ rb_rem (r_buf _ _ r') fr' = rest
+  | Bad e, Bad e2 => norm_err e = e2
+  | _, _ => False
+  end.
+
+Lemma conn_read_stream sn r fr : rb_wf (r_buf _ _ r) ->
+  sim_msg (conn_read sn r fr)
+          (conn_read_s sn (mks (r_dec _ _ r) (r_mac _ _ r)) (rb_rem (r_buf _ _ r) fr)).
+Proof.
+  intros W. unfold Rlpx.conn_read, Rlpx.conn_read_s.
+  pose proof (read_frame_stream r fr W) as S. unfold sim_frame in S.
+  destruct (read_frame r fr) as [[[f r'] fr']|e];
+    destruct (read_frame_s _ _) as [[[f2 s'] rest]|e2]; try contradiction; [|exact S].
+  destruct S as (-> & -> & W' & R').
+  destruct (split_uint64 f2) as [[code data]|]; [|reflexivity].
+  destruct sn; [|cbn; auto].
+  destruct (snappy_declen data) as [n|]; [|reflexivity].
+  destruct (max_uint24 <? n); [reflexivity|].
+  destruct (snappy_dec data); [cbn; auto|reflexivity].
+Qed.
+
+Lemma read_until_stream k sn : forall r fr, rb_wf (r_buf _ _ r) ->
+  norm_res (read_until k sn r fr) =
+  read_until_s k sn (mks (r_dec _ _ r) (r_mac _ _ r)) (rb_rem (r_buf _ _ r) fr).
+Proof.
+  induction k as [|k IH]; intros r fr W; [reflexivity|].
+  cbn [Rlpx.read_until Rlpx.read_until_s].
+  pose proof (conn_read_stream sn r fr W) as S. unfold sim_msg in S.
+  destruct (conn_read sn r fr) as [[[m r'] fr']|e];
+    destruct (conn_read_s _ _ _) as [[[m2 s'] rest]|e2]; try contradiction.
+  - destruct S as (-> & -> & W' & R'). specialize (IH r' fr' W'). rewrite R' in IH.
+    rewrite <- IH. unfold norm_res.
+    destruct (read_until k sn r' fr') as [ms e]. reflexivity.
+  - unfold norm_res. cbn. rewrite S. reflexivity.
+Qed.
+
+(* parsing is a function of the byte stream: any two fragmentations / buffer
+   states holding the same remaining bytes give the same messages and the same
+   error class *)
+Lemma chunk_independent k sn c m b1 fr1 b2 fr2 :
+  rb_wf b1 -> rb_wf b2 -> rb_rem b1 fr1 = rb_rem b2 fr2 ->
+  norm_res (read_until k sn (mkr c m b1) fr1) = norm_res (read_until k sn (mkr c m b2) fr2).
+Proof.
+  intros W1 W2 E. rewrite (read_until_stream k sn (mkr c m b1) fr1 W1).
+  rewrite (read_until_stream k sn (mkr c m b2) fr2 W2). cbn. rewrite E. reflexivity.
+Qed.
